@@ -10,6 +10,12 @@
              3 k fill+advance_to(k) | 4 k fill+advance(k) | 5 k fill+set_len(k)
              6 flatten (when the view is a Slice of a Slice, else nothing)
              7 n root.set_capacity(n) (pool buffers, else nothing)
+             8 k extend_from_slice(k pattern bytes): prints res (0 Ok, 1 NotSupported)
+             9 k reserve(k): prints res | 10 k as_writer().write(k bytes): prints res n
+             11 views of the initialised bytes: prints as_mut_slice (off len), Slice's
+                deref_mut (off len; as_init when the view is not a Slice), the root's Deref
+                and DerefMut (off len each); then every byte of as_mut_slice() += 1
+             12 every byte of the root's DerefMut view += 1
      result  Q0 Q1 .. Qn  rlen cap cells..     Q = o l o' c rlen
    pool case      3 drv full nsteps (code a b)*    drv 0 polling (fallback pool) 1 io_uring
      a fresh BufferRef of `full` bytes (len 0); same steps; result Q.. rlen cap full cells..
@@ -19,6 +25,7 @@
              4 n fill+set_len(n) | 5 owned_iter
              iterator mode: 6 k fill+advance_to | 7 k fill+set_len | 8 next
              9 k fill+advance | 10 b slice(b..) | 11 uninit() | 12 e slice(..e)
+             13 k extend_from_slice(k bytes) through the view over the iterator: prints res
      result  prints, then per member: rlen cap cells..
        vectored print  7 ns (m o n)* nu (m o n)*
        iterator print  8 m o l o' c        marker 9: owned_iter/next returned Err *)
@@ -73,7 +80,8 @@ Definition enc_panic (c : N) : list N := [2%N; c].
 Inductive bstep :=
 | BQuery | BSlice (b : nat) (e : option nat) | BUninit
 | BFillTo (k : nat) | BFillAdv (k : nat) | BFillSet (k : nat)
-| BFlatten | BSetCap (n : N).
+| BFlatten | BSetCap (n : N)
+| BExtend (k : nat) | BReserve (k : nat) | BWriter (k : nat) | BViews | BBumpRoot.
 
 Definition dec_bstep (code a b : N) : option bstep :=
   match code with
@@ -85,6 +93,11 @@ Definition dec_bstep (code a b : N) : option bstep :=
   | 5%N => Some (BFillSet (nn a))
   | 6%N => Some BFlatten
   | 7%N => Some (BSetCap a)
+  | 8%N => Some (BExtend (nn a))
+  | 9%N => Some (BReserve (nn a))
+  | 10%N => Some (BWriter (nn a))
+  | 11%N => Some BViews
+  | 12%N => Some BBumpRoot
   | _ => None
   end.
 
@@ -109,16 +122,37 @@ Definition b_write (v : view) (j k : nat) (r : root) : R root :=
   let! '(o, c) := r_as_uninit v r in
   Ok (root_write o (pat_from j 0 (Nat.min k c)) r).
 
-Definition bstep_apply (st : bstep) (v : view) (r : root) (j : nat) : R (view * root * nat) :=
+Definition enc_rsv (x : rsv) : N := match x with RsOk => 0%N | RsNotSupported => 1%N end.
+Definition enc_rg (rg : nat * nat) : list N := [NN (fst rg); NN (snd rg)].
+
+(* result: new view, root, fill counter, and what the step itself prints *)
+Definition bstep_apply (st : bstep) (v : view) (r : root) (j : nat)
+  : R (view * root * nat * list N) :=
   match st with
-  | BQuery => Ok (v, r, j)
-  | BSlice b e => let! v' := r_mk_slice v b e r in Ok (v', r, j)
-  | BUninit => let! v' := r_mk_uninit v r in Ok (v', r, j)
-  | BFillTo k => let! r1 := b_write v j k r in let! r2 := r_advance_to v k r1 in Ok (v, r2, S j)
-  | BFillAdv k => let! r1 := b_write v j k r in let! r2 := r_advance v k r1 in Ok (v, r2, S j)
-  | BFillSet k => let! r1 := b_write v j k r in let! r2 := r_set_len v k r1 in Ok (v, r2, S j)
-  | BFlatten => Ok (match flatten_view v with Some v' => v' | None => v end, r, j)
-  | BSetCap n => Ok (v, pool_set_capacity n r, j)
+  | BQuery => Ok (v, r, j, [])
+  | BSlice b e => let! v' := r_mk_slice v b e r in Ok (v', r, j, [])
+  | BUninit => let! v' := r_mk_uninit v r in Ok (v', r, j, [])
+  | BFillTo k => let! r1 := b_write v j k r in let! r2 := r_advance_to v k r1 in Ok (v, r2, S j, [])
+  | BFillAdv k => let! r1 := b_write v j k r in let! r2 := r_advance v k r1 in Ok (v, r2, S j, [])
+  | BFillSet k => let! r1 := b_write v j k r in let! r2 := r_set_len v k r1 in Ok (v, r2, S j, [])
+  | BFlatten => Ok (match flatten_view v with Some v' => v' | None => v end, r, j, [])
+  | BSetCap n => Ok (v, pool_set_capacity n r, j, [])
+  | BExtend k =>
+      let! '(res, r') := r_extend v (pat_from j 0 k) r in Ok (v, r', S j, [enc_rsv res])
+  | BReserve k =>
+      let! '(res, r') := r_reserve v k r in Ok (v, r', j, [enc_rsv res])
+  | BWriter k =>
+      let! '(res, r') := r_extend v (pat_from j 0 k) r in
+      Ok (v, r', S j, [enc_rsv res; match res with RsOk => NN k | RsNotSupported => 0%N end])
+  | BViews =>
+      let! m := r_as_mut_slice v r in
+      let! sd := r_slice_deref_mut v r in
+      if fst m + snd m <=? root_alloc r then
+        Ok (v, root_bump (fst m) (snd m) r, j,
+            enc_rg m ++ enc_rg sd ++ enc_rg (root_deref r) ++ enc_rg (root_deref_mut r))
+      else Panic P_SET_LEN
+  | BBumpRoot =>
+      let m := root_deref_mut r in Ok (v, root_bump (fst m) (snd m) r, j, [])
   end.
 
 Fixpoint run_b (steps : list bstep) (v : view) (r : root) (j : nat) (acc : list N)
@@ -126,9 +160,9 @@ Fixpoint run_b (steps : list bstep) (v : view) (r : root) (j : nat) (acc : list 
   match steps with
   | [] => Ok (acc ++ enc_root r)
   | st :: rest =>
-    let! '(v', r', j') := bstep_apply st v r j in
+    let! '(v', r', j', pr) := bstep_apply st v r j in
     let! q := enc_q v' r' in
-    run_b rest v' r' j' (acc ++ q)
+    run_b rest v' r' j' (acc ++ pr ++ q)
   end.
 
 Definition run_buffer (r : root) (steps : list bstep) : R (list N) :=
@@ -143,9 +177,9 @@ Fixpoint run_p (steps : list bstep) (v : view) (r : root) (j : nat) (acc : list 
   match steps with
   | [] => Ok (acc ++ enc_pool_root r)
   | st :: rest =>
-    let! '(v', r', j') := bstep_apply st v r j in
+    let! '(v', r', j', pr) := bstep_apply st v r j in
     let! q := enc_q v' r' in
-    run_p rest v' r' j' (acc ++ q)
+    run_p rest v' r' j' (acc ++ pr ++ q)
   end.
 
 Definition run_pool (r : root) (steps : list bstep) : R (list N) :=
@@ -157,7 +191,7 @@ Inductive vstep :=
 | SQuery | SSlice (b : nat) | SSliceMut (b : nat) | SFillTo (n : nat) | SFillSet (n : nat)
 | SIter
 | IFillTo (k : nat) | IFillSet (k : nat) | INext | IFillAdv (k : nat)
-| ISliceFrom (b : nat) | IUninit | ISliceTo (e : nat).
+| ISliceFrom (b : nat) | IUninit | ISliceTo (e : nat) | IExtend (k : nat).
 
 Definition dec_vstep (code a : N) : option vstep :=
   match code with
@@ -166,6 +200,7 @@ Definition dec_vstep (code a : N) : option vstep :=
   | 6%N => Some (IFillTo (nn a)) | 7%N => Some (IFillSet (nn a)) | 8%N => Some INext
   | 9%N => Some (IFillAdv (nn a)) | 10%N => Some (ISliceFrom (nn a)) | 11%N => Some IUninit
   | 12%N => Some (ISliceTo (nn a))
+  | 13%N => Some (IExtend (nn a))
   | _ => None
   end.
 
@@ -258,6 +293,9 @@ Definition vstep_apply (c : container) (st : vstep) (w : vview) (md : mode)
       end
   | Some (it, v), ISliceFrom b =>
       let! v' := i_mk_slice w v b None (it, ms) in Ok (SOk w (Some (it, v')) ms j [])
+  | Some (it, v), IExtend k =>
+      let! '(res, s') := i_extend c w v (pat_from j 0 k) (it, ms) in
+      Ok (SOk w (Some (fst s', v)) (snd s') (S j) [enc_rsv res])
   | Some (it, v), ISliceTo e =>
       let! v' := i_mk_slice w v 0 (Some e) (it, ms) in Ok (SOk w (Some (it, v')) ms j [])
   | Some (it, v), IUninit =>
